@@ -508,3 +508,119 @@ func c12Round5(c *Ctx) {
 		c.Check(len(cyc) > 0 && bad == nil, "C12.restore", fname(fn)+":every child pointer pair is visited", site, "no success return from inside the loop over the (left, right, leaf) pairs", "multipartMergeWithExisting returns success from inside the loop over the child pointer pairs: the remaining children of an already stored node are not given their stored indices, a later chunk numbers them anew and the subtree restored earlier is orphaned")
 	}
 }
+
+// c10Round5 (seeds C10r5/13..15 and the genuine defect F68 found by that round's agent).
+func c10Round5(c *Ctx) {
+	// (F68) a runtime message is stored, with the executor commitment that carries it, in the runtime's state, one
+	// level deeper than in the transaction. Its free-form parameter changes are therefore bounded in nesting when the
+	// message is validated: GovernanceMessage.ValidateBasic succeeds for a proposal with parameter changes only
+	// through cbor.ValidateFreeForm(changes) — otherwise an accepted executor commit makes the runtime state
+	// undecodable and roothash EndBlock fails on every node.
+	if fn := c.needFn("C10.support", "roothash/api/message.(*GovernanceMessage).ValidateBasic"); fn != nil {
+		vf := CallsTo(fn, "cbor.ValidateFreeForm(changes)", "common/cbor.ValidateFreeForm", "")
+		inst := fname(fn) + ":parameter changes of a proposal message are bounded in nesting"
+		okArg := !vf.Empty()
+		for _, call := range vf.Calls() {
+			if a := allArgs(call); len(a) != 1 || !strings.HasSuffix(vstr(a[0]), ".SubmitProposal.ChangeParameters.Changes") {
+				okArg = false
+			}
+		}
+		if !okArg {
+			c.Fail("C10.support", inst, c.P.Pos(fn.Pos()), "ValidateBasic of a governance runtime message does not bound the nesting of the proposal's free-form parameter changes (cbor.ValidateFreeForm): a message nested 23 levels is accepted in the executor commit transaction and stored in a runtime state that can no longer be decoded — roothash EndBlock then fails on every node (F68)")
+		} else {
+			cut, _ := successCut(vf)
+			cut.AddEdges(HeldEdges(fn, `\.SubmitProposal\.ChangeParameters == nil$`)...)
+			cut.AddEdges(HeldEdges(fn, `\.SubmitProposal == nil$`)...)
+			for _, r := range Returns(fn) {
+				cut.AddEdges(phiNonNilEdges(r)...)
+			}
+			hit := Reach(fn, nil, nil, anyOf(SuccessReturns(fn)), cut)
+			site := c.P.Pos(fn.Pos())
+			if hit != nil {
+				site = c.P.InstrPos(hit)
+			}
+			c.Check(hit == nil, "C10.support", inst, site, "success with parameter changes present ⇒ ValidateFreeForm(changes)✓", "a governance runtime message with parameter changes can be accepted without the nesting bound on its free-form changes (F68)")
+		}
+	}
+	if fn := c.needFn("C10.support", "common/cbor.ValidateFreeForm"); fn != nil {
+		lv, ok := c.ConstInt("common/cbor", "MaxFreeFormNestedLevels")
+		c.Check(ok && lv >= 4 && lv <= 20, "C10.support", "common/cbor.MaxFreeFormNestedLevels leaves room for the structures around a raw field", c.P.Pos(fn.Pos()), "free-form fields nest at most "+itoa(int(lv))+" levels; the deepest container around one (the runtime state: 10 levels) stays within the decoder's 32", "the nesting bound of free-form fields ("+itoa(int(lv))+") plus the 10 levels of the runtime state around a runtime message exceeds (or nearly exceeds) the decoder's limit of 32 nested levels")
+	}
+
+	// (15) shared with C01: PrepareProposal forwards every last-commit vote to its own execution
+	prepareVotesRule(c, "C10.order")
+
+	// (13) roothash InitChain allocates state for every suspended runtime the registry knows: in the loop over them
+	// every iteration reaches onNewRuntime (or fails). A suspended runtime without roothash state cannot be resumed: the
+	// scheduler's and roothash's BeginBlock fail with "invalid runtime" at the next epoch transition after a node
+	// registration resumed it.
+	if fn := c.needFn("C10.support", "consensus/cometbft/apps/roothash.(*Application).InitChain"); fn != nil {
+		inst := fname(fn) + ":every suspended runtime gets roothash state"
+		var calls []ssa.Instruction
+		for _, call := range findCalls(fn, "consensus/cometbft/apps/roothash.(*Application).onNewRuntime") {
+			if a := allArgs(call); len(a) >= 3 && strings.Contains(vstr(a[2]), "SuspendedRuntimes(") {
+				calls = append(calls, call)
+			}
+		}
+		var heads []*ssa.If
+		for _, b := range fn.Blocks {
+			for _, in := range b.Instrs {
+				if bo, ok := in.(*ssa.BinOp); ok && strings.Contains(vstr(bo), "SuspendedRuntimes(") && strings.Contains(vstr(bo), "builtin.len(") {
+					if refs := bo.Referrers(); refs != nil {
+						for _, r := range *refs {
+							if ifi, ok := r.(*ssa.If); ok && inCycle(ifi.Block()) {
+								heads = append(heads, ifi)
+							}
+						}
+					}
+				}
+			}
+		}
+		if len(calls) == 0 || len(heads) == 0 {
+			c.Fail("C10.support", inst, c.P.Pos(fn.Pos()), "the loop over the registry's suspended runtimes that allocates their roothash state was not found in InitChain (calls="+itoa(len(calls))+", loops="+itoa(len(heads))+")")
+		} else {
+			ok := true
+			for _, h := range heads {
+				if hit := Reach(fn, nil, []Edge{{h.Block(), 0}}, isInstr(h), NewCut().AddInstr(calls...)); hit != nil {
+					ok = false
+				}
+			}
+			c.Check(ok, "C10.support", inst, c.P.InstrPos(calls[0]), "every iteration over the suspended runtimes reaches onNewRuntime", "an iteration over the registry's suspended runtimes can skip onNewRuntime: the runtime has no roothash state, resuming it does not create one, and BeginBlock fails with 'invalid runtime' at the next epoch transition")
+		}
+	}
+
+	// (14) key manager status generation dereferences the optional runtime signing key of an init response only
+	// behind the nil test of that very field (a nil test on the *other* operand lets a node without a key, processed
+	// after one with a key, crash BeginBlock on every node at every epoch transition).
+	if fn := c.needFn("C10.nilerr", "consensus/cometbft/apps/keymanager/secrets.generateStatus"); fn != nil {
+		n, bad := 0, ""
+		for _, b := range fn.Blocks {
+			for _, in := range b.Instrs {
+				u, ok := in.(*ssa.UnOp)
+				if !ok || u.Op.String() != "*" {
+					continue
+				}
+				ld, ok := u.X.(*ssa.UnOp) // load of the field holding the pointer
+				if !ok || ld.Op.String() != "*" {
+					continue
+				}
+				fa, ok := ld.X.(*ssa.FieldAddr)
+				if !ok || !strings.HasSuffix(fieldKey(fa.X.Type(), fa.Field), ".InitResponse.RSK") {
+					continue
+				}
+				n++
+				guarded := false
+				for _, h := range heldCondVals(in) {
+					s := normCond(h.Cond, h.Pol)
+					if strings.HasSuffix(s, " != nil") && strings.HasSuffix(strings.TrimSuffix(s, " != nil"), ".RSK") && strings.Contains(s, strings.TrimPrefix(vstr(ld), "*")) {
+						guarded = true
+					}
+				}
+				if !guarded {
+					bad = c.P.InstrPos(in)
+				}
+			}
+		}
+		c.Check(n > 0 && bad == "", "C10.nilerr", fname(fn)+":the optional runtime signing key of an init response is dereferenced only behind its nil test", c.P.Pos(fn.Pos()), itoa(n)+" dereference(s), each behind `initResponse.RSK != nil`", "generateStatus dereferences InitResponse.RSK at "+bad+" without that field's own nil test (dereferences found: "+itoa(n)+"): a key manager node without a runtime signing key crashes the key manager's BeginBlock on every node")
+	}
+}
